@@ -933,7 +933,7 @@ theorem atomicRepeat_simT (pg : PGrammar) (G : NodeGrammar) (uni : Uni) (n : Nat
         (specTokRepLoop uS 0 none bS 0 i m.stk []) :=
       Tok.repLoop_sim pg .nonAtomic G (fun _ i m => parse G uni n false X i m) uS
         (fun idx i m => hX n (Nat.lt_succ_self n) idx i m) 0 none (atomicBudget n) bS 0 i
-        { m with trk := Tracker.new i } [] [] (fun _ => by simp [tokensList, pruneAtomic])
+        { m with trk := Tracker.new i } [] [] rfl (fun _ => by simp [tokensList, pruneAtomic])
     rcases hl.cases with h | h | ⟨mf, h1, h2⟩ | ⟨i1, m1, vs, ts, h1, h2, h3⟩
     · simp only [h]; exact SimG.oof_left _
     · simp only [h]; exact SimG.oof_right _
@@ -1217,7 +1217,7 @@ theorem rep_simT {pg : PGrammar} {uni : Uni} {n : Nat} (hP : TokSim pg uni n)
     (repUnitP (parse (gen pg) uni n false (gen pg).skipped) (parse (gen pg) uni n inh (genExpr pg sk x))
       (defaultSkipVal (gen pg)) (skipCount sk inh))
     (fun idx i S => if idx = 0 then specTok pg uni N am x i S else specTokThen pg uni N am x i S)
-    hu min mx n N 0 i m [] [] (fun _ => by simp [tokensList, pruneAtomic])
+    hu min mx n N 0 i m [] [] rfl (fun _ => by simp [tokensList, pruneAtomic])
   rcases hloop.cases with h | h | ⟨mf, h1, h2⟩ | ⟨i1, m1, vs, ts, h1, h2, h3⟩
   · simp only [h]; exact SimG.oof_left _
   · simp only [h]; exact SimG.oof_right _
